@@ -20,7 +20,7 @@ From Coq Require Import String Ascii.
 Open Scope N_scope.
 
 (* ---------------------------------------------------------------------------------------------
-   String surgery (strings.Split, TrimPrefix, TrimSuffix, HasSuffix). *)
+   String surgery (strings.Split, TrimPrefix, TrimSuffix, HasSuffix, utils.HasEndAnchor). *)
 Open Scope string_scope.
 
 Fixpoint split_slash (s : string) : list string :=
@@ -54,7 +54,24 @@ Fixpoint trim_suffix_dollar (s : string) : string :=
   | String c s' => String c (trim_suffix_dollar s')
   end.
 
-Definition strip_anchors (s : string) : string := trim_suffix_dollar (trim_prefix_caret s).
+(* utils.HasEndAnchor: the text ends with a `$` that is an anchor, i.e. one that is not escaped (an
+   even number of backslashes precedes it) *)
+Fixpoint count_backslashes (l : list ascii) : nat :=
+  match l with
+  | c :: l' => if Ascii.eqb c "\" then S (count_backslashes l') else O
+  | [] => O
+  end.
+Definition has_end_anchor (s : string) : bool :=
+  has_suffix_dollar s &&
+  match rev (list_ascii_of_string s) with
+  | _ :: rest => Nat.even (count_backslashes rest)
+  | [] => false
+  end.
+(* utils.TrimEndAnchor *)
+Definition trim_end_anchor (s : string) : string :=
+  if has_end_anchor s then trim_suffix_dollar s else s.
+
+Definition strip_anchors (s : string) : string := trim_end_anchor (trim_prefix_caret s).
 
 Definition slash : re := Chr 47.
 Definition any_text : string := ".*".
@@ -151,8 +168,8 @@ Section Patterns.
     end.
 
   (* wallet accountPathsToVerificationRegexes, one path: the wallet part is used as it is, an
-     empty account part stays empty, only a leading ^ of the account part is removed and a `$`
-     the user wrote at its end is kept instead of adding one *)
+     empty account part stays empty, only a leading ^ of the account part is removed and an end
+     anchor the user wrote is kept instead of adding one *)
   Definition wallet_parts (path : string) : option (string * string) :=
     match split_slash path with
     | [] => None
@@ -169,7 +186,7 @@ Section Patterns.
     | Some (p0, p1) =>
         match parse p0, parse p1 with
         | Some ws, Some accs =>
-            if has_suffix_dollar p1 then
+            if has_end_anchor p1 then
               Some {| p_key := p0;
                       p_text := "^" ++ p0 ++ "/" ++ p1;
                       p_re := textual_concat [[Bol]; ws; [slash]; accs] |}
